@@ -324,4 +324,26 @@ theorem finish_good (st : RS) (hg : st.Good) : finish st = .ok st.wordsDone := b
   obtain ⟨mode, done, segs, lit, name⟩ := st
   rcases hg.1 with h | h <;> simp only [] at h <;> subst h <;> simp [finish, RS.wordsDone]
 
+/-! ### the label script `s|^|…|` -/
+
+/-- `s|^|p|` with `p` taken literally. -/
+def prefixCmd (p : Bytes) : Cmd := ⟨.all, ⟨true, [], false⟩, p.map .lit, false⟩
+theorem parseRegexGo_delim (d : UInt8) (n : Nat) (X : Bytes) : parseRegexGo d (n + 1) (d :: X) = some ([], false, X) := by
+  rw [parseRegexGo.eq_def]; simp
+theorem parseCmd_prefix (X : Bytes) (repl : List RItem) (t4 t5 : Bytes) (g : Bool)
+    (h1 : parseRepl 124 X = some (repl, t4)) (h2 : parseFlags t4 = some (g, t5)) :
+    parseCmd (115 :: 124 :: 94 :: 124 :: X) = some (⟨.all, ⟨true, [], false⟩, repl, g⟩, t5) := by
+  simp [parseCmd, parseRegex, parseRegexGo_delim, NL, BSL, SP, h1, h2]
+theorem parse_prefix_script (t : Bytes) :
+    sedParse ([115, 124, 94, 124] ++ t.flatMap escN ++ [124]) = some [prefixCmd t] := by
+  have e : [115, 124, 94, 124] ++ t.flatMap escN ++ [124] = 115 :: 124 :: 94 :: 124 :: (t.flatMap escN ++ 124 :: []) := by simp
+  rw [e]
+  simp only [sedParse, List.length_cons]
+  rw [parseProg]
+  have hc := parseCmd_prefix (t.flatMap escN ++ [124]) _ _ _ _ (parseRepl_escN t []) (by simp [parseFlags] : parseFlags [] = some (false, []))
+  simp [isSedBlank, SP, TAB, NL, hc, parseProg, prefixCmd]
+
+theorem runCmds_prefix (p line : Bytes) (last : Bool) : runCmds [prefixCmd p] line last = p ++ line := by
+  simp [runCmds, prefixCmd, Addr.applies, subst, substGo_empty_bol, expand_lits]
+
 end XzVerif.Shell
